@@ -229,9 +229,9 @@ check("C21", "internal/accumulation",
       level_text="Every dependency graph on up to 3 reports (all placements) and generated multi-block histories are run through the production queue functions and compared with an independent model of the equations; held = no divergence and no invariant violation on what was explored.",
       note="In-package harness (updateXi/updateVartheta are unexported). The PVM is not involved: n (how many of W* were accumulated) is chosen by the harness. Precondition as established by guarantee validation: package hashes are unique and freshly available reports are not in the accumulated history.",
       shards=(8, 16), env={"JAM_FUZZ": "1"},
-      floors={"any": {"graphs_compared": 263000, "blocks_compared": 10000, "blocks_after_a_slot_gap": 3000, "blocks_after_a_gap_of_an_epoch_or_more": 1000, "blocks_releasing_queued_reports": 1000,
+      floors={"any": {"graphs_compared": 350000, "graphs_with_two_reports_of_one_package": 80000, "blocks_compared": 10000, "blocks_after_a_slot_gap": 3000, "blocks_after_a_gap_of_an_epoch_or_more": 1000, "blocks_releasing_queued_reports": 1000,
                       "blocks_with_gas_cut": 500, "blocks_with_in_block_dependency_order_checked": 1000}},
-      exhaustive="all dependency graphs on 1..3 reports x all placements", assumptions=[STANDIN_VRF])
+      exhaustive="all dependency graphs on 1..3 reports x all placements; every third graph again with two reports of one package", assumptions=[STANDIN_VRF])
 
 
 CODEC_NOTE = ("Values are built by reflection over the repository's own types (harness/internal/zzverif/vgen) with the wire format's fixed lengths (V, C, E, Q, super-majority, bitfield, tickets-or-keys and work-result unions); "
